@@ -287,7 +287,7 @@ def run(rng, res, tier, shard, nshards):
         case = gen_case14(rng)
         f = check_case(case, res)
         res.case(digest(case))
-        if res.evaluations % 199 == 3:
+        if len(res.samples) < 3 and len(case['history']) >= 3:
             res.sample({'start': case['start'][0], 'history': case['history'][:10]})
         if f:
             res.violation(f[0], f[1], case)
